@@ -41,11 +41,11 @@ def pcHoldL (cfg : Cfg) : PC → LockId → Nat
   | .popScan q _, L => ind (L = .queue q)
   | .popUnlock q _, L => ind (L = .queue q)
   | .popRemove q _ t, L => ind (L = .queue q) + depsHold cfg t L
-  | .idle, _ | .getCheck _, _ | .getInc _, _ | .getCas _ _, _ | .getCount _ _, _ | .getMax _ _ _, _ | .getMaxCas _ _ _ _, _ | .cMax _ _, _ | .cMaxCas _ _ _, _ | .cLoadMx _, _
+  | .idle, _ | .getCheck _, _ | .getInc _, _ | .getCas _ _, _ | .getCount _ _, _ | .getMax _ _ _, _ | .getMaxCas _ _ _ _, _ | .cMax _ _, _ | .cMaxCas _ _ _, _ | .cLoadMx _, _ | .loadTaken, _
   | .getTotal _ _, _ | .apFill _ _, _ | .apPlace _ _, _ | .crashed _, _ | .freeReset _, _ | .freeYield _, _
   | .freeUnlock _, _ | .freeDec _, _ | .lockSpin _, _ | .lockTry _, _ | .addLock _ _ _, _ | .numInc _ _ _, _ | .relDec _ _ _, _ | .retire _, _ | .setUnf _ _, _ | .loadNum, _
   | .popLock _ _, _ | .qsz _, _ | .cInc _, _ | .cDec _, _ | .cPostInc _, _ | .cPreAdd _ _, _
-  | .cPostAdd _ _, _ | .cPreSub _ _, _ | .cLoad _, _ | .lfLoad _ _, _ | .lfCas _ _ _, _ => 0
+  | .cPostAdd _ _, _ | .cPreSub _ _, _ | .cLoad _, _ | .cAwait _ _, _ | .lfLoad _ _, _ | .lfCas _ _ _, _ => 0
 
 def heldHold (held : List Nat) : LockId → Nat
   | .dep k => held.count k
